@@ -369,7 +369,8 @@ func Mutate(t *rapid.T, units [][]byte) ([][]byte, string) {
 		case "length-field":
 			if len(u[i]) >= 2 {
 				p := rapid.IntRange(0, len(u[i])-1).Draw(t, "at")
-				v := rapid.SampledFrom([][]byte{{0}, {1}, {0x7f}, {0x80}, {0xff}, {0xff, 0xff}, {0x80, 0, 0, 0}, {0xff, 0xff, 0xff, 0xff}, {0x84, 0xff, 0xff, 0xff, 0xff}}).Draw(t, "val")
+				v := rapid.SampledFrom([][]byte{{0}, {1}, {0x7f}, {0x80}, {0xff}, {0xff, 0xff}, {0x80, 0, 0, 0}, {0xff, 0xff, 0xff, 0xff}, {0x84, 0xff, 0xff, 0xff, 0xff},
+					{0x85, 0x01, 0, 0, 0, 0}, {0x86, 0x01, 0, 0, 0, 0, 0}, {0x87, 0x10, 0, 0, 0, 0, 0, 0}, {0x88, 0x7f, 0xff, 0xff, 0xff, 0xff, 0xff, 0xff, 0xff}, {0x84, 0x7f, 0xff, 0xff, 0xff}}).Draw(t, "val")
 				for q := 0; q < len(v) && p+q < len(u[i]); q++ {
 					u[i][p+q] = v[q]
 				}
